@@ -10,8 +10,8 @@
     hands out -, other environment, sessions, five emits) and are additionally transpiled under extra hash seeds (run_extra_seeds).
 
 (2) STATE THAT TRAVELS THROUGH A MODULE-LEVEL TABLE THAT IS MEANT TO BE A CONSTANT (`_SAFE_NAME_REFERENCES`, `_SAFE_CASTS`,
-    `_BUILTIN_CALL_RETURN_TYPES`, `_BUZZER_MELODIES` ...).  run_state_pairs(): ordered pairs (A, B) in ONE process.  A BINDS a name that
-    is an element / key of such a table in one of 14 roles (int / float / text / list variable, function, parameter, loop variable,
+    `_BUILTIN_CALL_RETURN_TYPES`, `_BUZZER_MELODIES`, the emitter's `_LCD_PROGRESS_STYLES` / `_LCD_ANIMATION_*_FUNCS` ...).  run_state_pairs(): ordered pairs (A, B) in ONE process.  A BINDS a name that
+    is an element / key of such a table in one of 16 roles (int / float / text / list variable, function returning int / float / text, parameter, loop variable,
     tuple target, first bound in a branch, comprehension variable, except-as name, device, augmented, global in a function) - also the
     A's the parser REJECTS (a reserved identifier is rejected only after the per-script bookkeeping ran: a parse() call all the same);
     B never binds the name and uses it in its builtin meaning on literals: global initialiser, sleep(), device argument, pin, condition,
@@ -120,6 +120,19 @@ def neighbour_programs(rng):
     return out
 
 
+def neighbour_combined():
+    """one program per ordered pair of scalar types with all five neighbour joins (the quick tier's version of neighbour_programs)"""
+    out = []
+    lit = {"int": "3", "bool": "True", "float": "2.5"}
+    for a, b in itertools.permutations(["int", "bool", "float"], 2):
+        src = (HEAD + f"flag = 1\nmixed = [{lit[a]}, {lit[b]}, {lit[a]}]\nsize = len(mixed)\nchosen = {lit[a]} if flag > 0 else {lit[b]}\n"
+               f"if flag > 0:\n    later = {lit[a]}\nelse:\n    later = {lit[b]}\ngrow = [{lit[a]}]\ngrow.append({lit[b]})\n"
+               f"def twice(v):\n    return v + v\nfirst = twice({lit[a]})\nsecond = twice({lit[b]})\n"
+               f"def mixed_list(raw):\n    return [raw, {lit[b]}, {lit[a]}]\nthird = mixed_list({lit[a]})\nwhile True:\n    sleep(size)\n")
+        out.append((src, f"join neighbours {a}+{b}"))
+    return out
+
+
 def join_corpus(rng, thorough):
     """-> [(source, origin)]: accepted programs only (see accepted_combo)"""
     combos = [c for n in (2, 3) for c in itertools.combinations(KINDS, n) if accepted_combo(c)]
@@ -143,13 +156,13 @@ def join_corpus(rng, thorough):
         n += 1
     if thorough:
         for c in combos:
-            for shape in SHAPES:
+            for shape in rng.sample(SHAPES, 2):
                 kinds = list(c)
                 rng.shuffle(kinds)
                 out.append((join_program(tuple(kinds), shape, rng.choice(uses), rng, n), "join returns " + "+".join(kinds)))
                 n += 1
     nb = neighbour_programs(rng)
-    out += nb if thorough else rng.sample(nb, 12)
+    out += neighbour_combined() + (nb if thorough else rng.sample(nb, 6))
     return out
 
 
@@ -198,6 +211,8 @@ USES = {
 }
 MELODIES = ["startup", "siren", "success", "error", "notify", "alarm", "scale_c"]
 CORE_NAMES = ["digital_read", "analog_read"]
+LCD_STYLES = ["hash", "block", "pipe", "dot"]                    # keys of emitter._LCD_PROGRESS_STYLES
+LCD_ANIMS = ["scroll", "blink", "bounce", "typewriter"]          # keys of emitter._LCD_ANIMATION_START_FUNCS / _TICK_FUNCS
 
 A_ROLES = {
     "int": "{n} = 140\nangle = 20 + {n}\n",
@@ -205,6 +220,8 @@ A_ROLES = {
     "text": '{n} = "wide"\n',
     "list": "{n} = [20, 160]\n{n}.append(90)\n",
     "function": "def {n}(a):\n    return a + 1\nres_ = {n}(2)\n",
+    "function_float": "def {n}(a):\n    return a * 0.5\nres_ = {n}(2)\n",
+    "function_text": "def {n}(a):\n    return \"wide\"\nres_ = {n}(2)\n",
     "parameter": "def scale_(v, {n}):\n    return v * {n}\nres_ = scale_(2, 3)\n",
     "loopvar": "for {n} in range(3):\n    sleep({n})\n",
     "tuple": "{n}, hi_ = 20, 160\n",
@@ -226,6 +243,11 @@ def b_script(name, positions, k=0):
     """a script that never binds `name` and uses it in its builtin meaning at the given positions"""
     if name in MELODIES:
         return (HEAD + f'horn = Buzzer(8)\nhorn.melody("{name}")\nwhile True:\n    horn.melody("{name}", tempo=200)\n    sleep(500)\n')
+    if name in LCD_STYLES or name in LCD_ANIMS:
+        call = (f'panel.progress(1, 30, max_value=100, width=12, style="{name}")' if name in LCD_STYLES
+                else f'panel.animate("{name}", 0, "hello there", speed_ms=150, loop=True)')
+        return (HEAD + "from Reduino.Displays import LCD\npanel = LCD(rs=12, en=11, d4=5, d5=4, d6=3, d7=2)\n" + call
+                + "\nwhile True:\n    sleep(100)\n")
     if name in CORE_NAMES:
         arg = "7" if name == "digital_read" else "A0"
         imp = f"from Reduino.Core import pin_mode, {name}, INPUT, A0\n"
@@ -271,11 +293,12 @@ def run_state_pairs(ctx, C, seed, thorough):
     """-> (evaluations, nontrivial, distribution)"""
     import difflib
     rng = ctx.rng
-    names = list(USES) + MELODIES[: (7 if thorough else 3)] + CORE_NAMES
+    names = list(USES) + MELODIES[: (7 if thorough else 2)] + CORE_NAMES + LCD_STYLES[: (4 if thorough else 1)] + LCD_ANIMS[: (4 if thorough else 2)]
     sources, a_idx, b_idx = [], {}, {}
     roles_of = {}
     for n in names:
-        roles = list(A_ROLES) if thorough else rng.sample(list(A_ROLES), 8)       # quick: 8 of the 14 roles per name (seeded)
+        fixed = ["int", "function_float", "device"]          # quick: these three + 5 of the other 13 roles per name (seeded)
+        roles = list(A_ROLES) if thorough else fixed + rng.sample([r for r in A_ROLES if r not in fixed], 5)
         roles_of[n] = roles
         for role in roles:
             a_idx[(n, role)] = len(sources)
@@ -286,7 +309,7 @@ def run_state_pairs(ctx, C, seed, thorough):
     # difference found against it is confirmed in real fresh processes before it is reported
     ref_ops = []
     for i in range(len(sources)):
-        ref_ops += [["reset"], ["t", i]] if (thorough or i in b_idx.values()) else [["t", i]]
+        ref_ops += [["reset"], ["t", i]] if i in b_idx.values() else [["t", i]]
     ref_all = run_ops(C, sources, ref_ops, seed)
     ref = [r for op, r in zip(ref_ops, ref_all) if op[0] == "t"]
     # sessions: per name  reset, B, (A_role, B)*   - and interleaved  p A, p B, e A, e B  for a sample of roles
@@ -297,7 +320,7 @@ def run_state_pairs(ctx, C, seed, thorough):
         ops.append(["reset"]); meta.append(None)
         ops.append(["t", b_idx[n]]); meta.append(("B-first", n, None))
         for role in roles:
-            if thorough:
+            if thorough and rng.random() < 0.4:          # thorough: a module reset in front of 40 % of the A's (the pair in isolation)
                 ops.append(["reset"]); meta.append(None)
             ops.append(["t", a_idx[(n, role)]]); meta.append(("A", n, role))
             ops.append(["t", b_idx[n]]); meta.append(("B", n, role))
